@@ -45,3 +45,27 @@ class Universe:
             if ok[i]:
                 val[i] = self.val(V.val(v))
         return dict(ok=ok, val=val)
+
+    def universe(self):
+        from .pyvc.values import Val
+        try:
+            return list(self.m.get_universe(Val) or [])
+        except Exception:
+            return []
+
+    def map_entries(self, M, extra=()):
+        """Entries of a MapV model restricted to the model's universe of Val (plus `extra` terms)."""
+        from .pyvc.values import Opt
+        out = {}
+        for v in list(self.universe()) + [self.ev(t) for t in extra] + [v for (_i, v) in list(self.ids.values())]:
+            e = self.ev(M[v])
+            if str(e) != "none":
+                out[self.val(v)] = self.val(Opt.get(M[v]))
+        return out
+
+    def set_members(self, S, extra=()):
+        out = set()
+        for v in list(self.universe()) + [self.ev(t) for t in extra] + [v for (_i, v) in list(self.ids.values())]:
+            if self.bool(S[v]):
+                out.add(self.val(v))
+        return sorted(out)
